@@ -3,6 +3,7 @@
 package cache
 
 import (
+	"bytes"
 	"compress/gzip"
 	"crypto/sha256"
 	"encoding/gob"
@@ -234,7 +235,14 @@ func (bc *BuildCache) deserialize(c Cacheable, srcModTime time.Time, r io.Reader
 		}
 	}()
 
-	gd := gob.NewDecoder(zr)
+	// Decompress the whole entry first: the gzip checksum and length are only
+	// verified when the stream is read to its end, and a truncated or corrupted
+	// entry must be a cache miss rather than a partially decoded package.
+	data, err := io.ReadAll(zr)
+	if err != nil {
+		return buildTime, false, err
+	}
+	gd := gob.NewDecoder(bytes.NewReader(data))
 	if err := gd.Decode(&buildTime); err != nil {
 		return buildTime, false, err
 	}
